@@ -21,9 +21,12 @@ for d in sorted(os.listdir(root)):
     meta = json.load(open(os.path.join(dd, 'meta.json')))
     props = [meta['property']] + [p for p in a.also.split(',') if p] + meta.get('also_check', [])
     wt = '/tmp/verif-seeded-%s-%d' % (d, os.getpid())
-    subprocess.run(['git', '-C', '/repo', 'worktree', 'add', '--detach', '-f', wt, 'HEAD'], check=True, capture_output=True)
+    # 'base' (rare): the change rewrites code that a later repository fix also touched; it is kept on the commit it was written for
+    subprocess.run(['git', '-C', '/repo', 'worktree', 'add', '--detach', '-f', wt, meta.get('base', 'HEAD')], check=True, capture_output=True)
     try:
         r = subprocess.run(['git', '-C', wt, 'apply', os.path.join(dd, 'patch.diff')], capture_output=True, text=True)
+        if r.returncode != 0:
+            r = subprocess.run(['git', '-C', wt, 'apply', '--3way', os.path.join(dd, 'patch.diff')], capture_output=True, text=True)
         if r.returncode != 0:
             rows.append((d, meta['property'], 'PATCH DOES NOT APPLY', '', r.stderr.strip()[:200])); continue
         res = {}
